@@ -282,6 +282,23 @@ func (c *compiler) computeStates() {
 				}
 			}
 
+			if i < len(c.grammar.Inputs) && Sym(sym) == c.grammar.Inputs[i].Nonterminal {
+				// The state reached over the input nonterminal implicitly holds the augmented item
+				// (input: X . eoi), so it must stay private to this input: sharing it with an inner
+				// state that has the same core would let that inner context shift eoi and accept.
+				last := &state{
+					index:       len(c.states),
+					symbol:      Sym(sym),
+					sourceState: curr.index,
+					core:        slices.Clone(core),
+					dropped:     dropped,
+				}
+				c.states = append(c.states, last)
+				curr.shifts = append(curr.shifts, last.index)
+				c.shifts[sym] = core[:0]
+				continue
+			}
+
 			state := stateMap.Get(core).(*state)
 			if state.sourceState == -1 {
 				state.sourceState = curr.index
